@@ -81,11 +81,11 @@ var kindTable = []kindInfo{
 	{schema.GroupVersionKind{Group: "rbac.authorization.k8s.io", Version: "v1", Kind: "ClusterRole"}, "clusterroles", false},
 	{schema.GroupVersionKind{Group: "apiextensions.k8s.io", Version: "v1", Kind: "CustomResourceDefinition"}, "customresourcedefinitions", false},
 	{schema.GroupVersionKind{Group: "company.com", Version: "v1", Kind: "Bar"}, "bars", true},
-	// the same Kind name in another API group (its plural differs: the REST paths of the fake carry no group)
-	{schema.GroupVersionKind{Group: otherBarGroup, Version: "v1", Kind: "Bar"}, "obars", true},
+	// one Kind name in two API groups, both known to the mapper without a CRD (their plurals
+	// differ: the REST paths of the fake carry no group)
+	{schema.GroupVersionKind{Group: "stable.example.com", Version: "v1", Kind: "Baz"}, "bazs", true},
+	{schema.GroupVersionKind{Group: "other.example.com", Version: "v1", Kind: "Baz"}, "obazs", true},
 }
-
-const otherBarGroup = "other.example.com"
 
 // EntryInvalid builds a universe entry whose manifests fail the validator's field checks for
 // another reason than the namespace scope: an apiVersion the mapper does not know (of a known
@@ -97,10 +97,10 @@ func EntryInvalid(apiVersion, kind, ns, name string) UEntry {
 		APIVersion: apiVersion, Namespaced: ns != "", Kind: KPlain, NsObj: -1, Crd: -1, FInv: true}
 }
 
-// EntryOtherBar builds a universe entry of kind Bar in the second API group: together with
-// Entry("Bar", ns, name) two identifiers that differ in the group only.
-func EntryOtherBar(ns, name string) UEntry {
-	k := kindByResource("obars")
+// EntryBaz builds a universe entry of kind Baz in the first (other = false) or the second API
+// group: two identifiers that differ in the group only.
+func EntryBaz(other bool, ns, name string) UEntry {
+	k := kindByResource(map[bool]string{false: "bazs", true: "obazs"}[other])
 	return UEntry{Meta: object.ObjMetadata{Namespace: ns, Name: name, GroupKind: k.GVK.GroupKind()},
 		APIVersion: k.APIVersion(), GVR: k.GVR(), Namespaced: true, Kind: KPlain, NsObj: -1, Crd: -1}
 }
